@@ -111,13 +111,86 @@ def dec_missing(case):
     return int(v) if kind == "int" else float(v)
 
 
-def impl_get(cov, x, missing, rt, units):
-    c, v = _objs()
-    obj = c if cov else v
+_CALLS = {True: [], False: []}   # every get() issued on the module singletons in this process, in order, per radius set (complete calls)
+
+
+def impl_get(cov, x, missing, rt, units, obj=None):
+    if obj is None:
+        c, v = _objs()
+        obj = c if cov else v
+        mv, mk = enc_missing(missing)
+        _CALLS[cov].append({"atom": x, "missing": mv, "missing_kind": mk, "return_tuple": rt, "units": units})
     try:
         return ("Ok", obj.get(x, return_tuple=rt, units=units, missing=missing))
     except Exception as e:  # noqa: BLE001
         return ("Err", type(e).__name__)
+
+
+def replay_history(cov, hist, obj=None):
+    """re-issue earlier calls (their own answers are not judged): complete calls as recorded, or bare identifiers (float
+    history-makers of the periodic table) as get(h)"""
+    for h in hist or []:
+        if isinstance(h, dict):
+            impl_get(cov, h["atom"], dec_missing(h), h["return_tuple"], h["units"], obj)
+        else:
+            impl_get(cov, h, None, False, "bohr", obj)
+
+
+def dependent_history(rs, cov, x, missing, rt, units, upto, base=()):
+    """A call failed on the singleton.  Find the earlier calls of this process (of the first `upto` logged ones) it needs in order
+    to fail again in a FRESH process: candidates from narrow to wide — none; the calls whose identifier has the same text up to
+    blanks / case / sign; those naming the same element; the last 300 calls; every call so far — each tried on a freshly
+    constructed table object exactly as a replay would issue them (fallback objects rebuilt from their recorded value).
+    Returns (history, reproduced?)."""
+    log = _CALLS[cov][:upto]
+    base = list(base)
+    nx = c01.norm_id(x)
+
+    def ekey(y):
+        try:
+            e = rs.expect(cov, y)
+        except Exception:  # noqa: BLE001
+            return None
+        return e[1] if len(e) > 1 else None
+    kx = ekey(x)
+    same_text = [h for h in log if c01.norm_id(h["atom"]) == nx]
+    same_elem = [h for h in log if c01.norm_id(h["atom"]) == nx or (kx is not None and not isinstance(h["atom"], float) and ekey(h["atom"]) == kx)] \
+        if kx is not None else same_text
+    cands = [base, base + same_text, base + same_elem, base + log[-300:], base + log]
+    for hist in cands:
+        if _judge_fresh(rs, cov, x, missing, rt, units, hist):
+            # shrink: drop chunks of the history as long as the call still fails on a fresh object (bounded number of trials)
+            trials, n = 0, 2
+            while len(hist) > len(base) and trials < 60 and len(hist) <= 2000:
+                size = max(1, (len(hist) - len(base)) // n)
+                for i in range(len(base), len(hist), size):
+                    cut = hist[:i] + hist[i + size:]
+                    trials += 1
+                    if _judge_fresh(rs, cov, x, missing, rt, units, cut):
+                        hist, n = cut, max(n - 1, 2)
+                        break
+                    if trials >= 60:
+                        break
+                else:
+                    if size == 1:
+                        break
+                    n = min(2 * n, len(hist) - len(base))
+            return hist, True
+    return base + same_elem + log[-40:], False
+
+
+def _judge_fresh(rs, cov, x, missing, rt, units, hist):
+    """does the call fail the oracle on a fresh object after `hist`, with the fallback rebuilt as a replay rebuilds it?"""
+    single = _objs()[0 if cov else 1]
+    try:
+        obj = type(single)(single.name)
+        replay_history(cov, hist, obj)
+        mv, mk = enc_missing(missing)
+        m2 = dec_missing({"missing": mv, "missing_kind": mk})
+        out = impl_get(cov, x, m2, rt, units, obj)
+        return bool(oracle(rs, cov, x, m2, rt, units, out))
+    except Exception:  # noqa: BLE001
+        return False
 
 
 def dec_tuple(d):
@@ -290,16 +363,15 @@ def run_history_replay(ctx, rs, corr, memo, idents, fallback):
             t = str(m)
             targets += [t, " " + t, t + " ", "+" + t, str(int(m)) + ".", str(int(m)) + ".00"]
     earlier = [x for _s, x in idents]
-    by_norm = {}
-    for y in earlier:
-        by_norm.setdefault(c01.norm_id(y), []).append(y)
     rng.shuffle(earlier)
+    ndep = 0
     targets += earlier if ctx.thorough else earlier[:1200]
     for x in targets:
         if isinstance(x, float):
             continue
         for cov in (True, False):
             for missing, rt, units in ((None, False, "bohr"), (fallback, False, "angstrom"), (None, True, "bohr")):
+                upto = len(_CALLS[cov])
                 out = impl_get(cov, x, missing, rt, units)
                 corr.count("history-replay")
                 bad = oracle(rs, cov, x, missing, rt, units, out)
@@ -307,10 +379,15 @@ def run_history_replay(ctx, rs, corr, memo, idents, fallback):
                 if not bad and first is not None and first != repr(out):
                     bad = f"the same call was answered differently later in the run (state kept between calls): first {first}, now {out!r}"
                 if bad:
-                    # earlier identifiers with the same text up to blanks / case / sign (makers and main-pass calls): part of the failing input
-                    coll = [m for m in makers if c01.norm_id(m) == c01.norm_id(x)] + \
-                           [y for y in by_norm.get(c01.norm_id(x), []) if not (type(y) is type(x) and y == x)]
-                    corr.failures.append({"stream": "history", "case": _case(cov, x, missing, rt, units, coll or makers),
+                    # the earlier calls the failure needs (complete calls, tried on a fresh object as a replay issues them); failing
+                    # that, the earlier identifiers with the same text up to blanks / case / sign and the history-makers
+                    case = _case(cov, x, missing, rt, units)
+                    if ndep < 10:
+                        ndep += 1
+                        case["history"], case["history_reproduces"] = dependent_history(rs, cov, x, missing, rt, units, upto, c01.collide_history(x))
+                    else:
+                        case["history"] = [h for h in _CALLS[cov][:upto] if c01.norm_id(h["atom"]) == c01.norm_id(x)][-60:]
+                    corr.failures.append({"stream": "history", "case": case,
                                           "what": bad + "  [after the earlier calls listed in case.history]", "observed": repr(out)})
 
 
@@ -428,10 +505,10 @@ def correspond(ctx):
         for x in ([e, z, n.lower()] if ctx.thorough else [e] + ([z] if z % 4 == 0 else [])):
             for cov in (True, False):
                 plan.append(("fallbacks", x, cov, [(fb, rt, "bohr") for fb in fallbacks() for rt in (False, True)]))
-    import collections
-    recent = {True: collections.deque(maxlen=40), False: collections.deque(maxlen=40)}   # the calls made just before, per radius set
+    ndep = 0    # failures whose dependence on earlier calls has been worked out (the first ones; the rest carry no history)
     for stream, x, cov, combos in plan:
         for missing, rt, units in combos:
+            upto = len(_CALLS[cov])
             out = impl_get(cov, x, missing, rt, units)
             memo[(cov, type(x).__name__, x, enc_missing(missing), rt, units)] = repr(out)
             corr.count(stream)
@@ -459,22 +536,11 @@ def correspond(ctx):
             bad = oracle(rs, cov, x, missing, rt, units, out)
             case = _case(cov, x, missing, rt, units, c01.collide_history(x))
             if bad:
-                if len(corr.failures) < 200:
-                    # does a fresh object give the same wrong answer?  if not, the failure depends on earlier calls: keep them in the case
-                    try:
-                        obj = _objs()[0 if cov else 1]
-                        try:
-                            out2 = ("Ok", type(obj)(obj.name).get(x, return_tuple=rt, units=units, missing=missing))
-                        except Exception as e:  # noqa: BLE001
-                            out2 = ("Err", type(e).__name__)
-                        stateless = bool(oracle(rs, cov, x, missing, rt, units, out2))
-                    except Exception:  # noqa: BLE001
-                        stateless = True
-                    if not stateless:
-                        case["history"] = list(case.get("history") or []) + list(recent[cov])
+                if ndep < 25:
+                    # which earlier calls does the failure need?  tried on fresh objects the way a replay would issue them
+                    ndep += 1
+                    case["history"], case["history_reproduces"] = dependent_history(rs, cov, x, missing, rt, units, upto, c01.collide_history(x))
                 corr.failures.append({"stream": "oracle", "case": case, "what": bad, "observed": repr(out)})
-            mv, mk = enc_missing(missing)
-            recent[cov].append({"atom": x, "missing": mv, "missing_kind": mk, "return_tuple": rt, "units": units})
             if isinstance(x, str) and not x.isascii():
                 continue
             want = rexp_term(out, missing)
@@ -490,6 +556,8 @@ def correspond(ctx):
     corr.sample({"case": {"table": "covalent", "atom": "c", "units": "bohr"}, "implementation": repr(impl_get(True, "c", None, False, "bohr"))})
     nf = len(corr.failures)
     run_history_replay(ctx, rs, corr, memo, idents, fallback)
+    # per stream the first failure becomes the replay file: prefer one whose recorded history was seen to reproduce on a fresh object
+    corr.failures.sort(key=lambda d: {True: 0, None: 1, False: 2}[d["case"].get("history_reproduces") if isinstance(d.get("case"), dict) else None])
     ctx.log(f"history replay: {corr.streams.get('history-replay', 0)} get() calls re-issued after {corr.streams.get('history-makers', 0)} "
             f"history-makers; {len(corr.failures) - nf} failures")
     ctx.log(f"{len(terms)} get() calls through the implementation and the oracle ({len(corr.failures)} oracle failures); evaluating the model")
@@ -528,6 +596,8 @@ def correspond(ctx):
         if b2a is not None and exp[0] == "entry":
             want = Fraction(Decimal(exp[3])) / b2a
             if not (out[0] == "Ok" and isinstance(out[1], float) and abs(Fraction(out[1]) - want) <= want * Fraction(1, 2 ** 50)):
+                if oracle(rs, cov, x, None, False, "bohr", out) and not _judge_fresh(rs, cov, x, None, False, "bohr", case["history"]):
+                    case["history"], case["history_reproduces"] = dependent_history(rs, cov, x, None, False, "bohr", len(_CALLS[cov]), c01.collide_history(x))
                 corr.failures.append({"stream": "oracle", "case": case, "observed": repr(out),
                                       "what": f"default result {out!r} is not tabulated {exp[3]} / bohr2angstroms (CODATA{year} Bohr radius x 1e10) = {float(want)!r} within 2^-50"})
         if out[0] == "Ok" and isinstance(out[1], float) and math.isfinite(out[1]):
@@ -877,11 +947,7 @@ def _run_case(rs, case):
         return {"oracle": None if ok else f"to_units gave {r!r}, expected {want!r}", "implementation": repr(r)}
     cov = case["table"] == "covalent"
     missing = dec_missing(case)
-    for h in case.get("history") or []:  # history-makers: their own answers are not judged
-        if isinstance(h, dict):              # a complete earlier call
-            impl_get(cov, h["atom"], dec_missing(h), h["return_tuple"], h["units"])
-        else:
-            impl_get(cov, h, None, False, "bohr")
+    replay_history(cov, case.get("history"))   # earlier calls (complete, or bare history-makers): their own answers are not judged
     out = impl_get(cov, case["atom"], missing, case["return_tuple"], case["units"])
     return {"oracle": oracle(rs, cov, case["atom"], missing, case["return_tuple"], case["units"], out), "implementation": repr(out)}
 
@@ -904,8 +970,16 @@ def search(ctx, corr, reasons):
                                   "return_tuple": False, "units": "bohr"})
                 cases.append({"table": "covalent" if cov else "vdw", "atom": x, "missing": None, "return_tuple": True, "units": "bohr"})
     for case in cases:
+        cov = case.get("table") == "covalent"
+        upto = len(_CALLS[cov])
         r = _run_case(rs, case)
         if r["oracle"]:
+            if "atom" in case and len(found) < 3:
+                m = dec_missing(case)
+                if not _judge_fresh(rs, cov, case["atom"], m, case["return_tuple"], case["units"], case.get("history") or []):
+                    case = dict(case)
+                    case["history"], case["history_reproduces"] = dependent_history(rs, cov, case["atom"], m, case["return_tuple"], case["units"], upto,
+                                                                                    c01.collide_history(case["atom"]))
             found.append({"stream": "search", "case": case, "what": r["oracle"], "observed": r["implementation"]})
             if len(found) >= 5:
                 break
